@@ -125,8 +125,16 @@ def gen_case(prop, rng, tier, i):
         return {"mode": "iso", "cls": cls, "width": rng.choice([20, 80, 120]), "nsess": nsess, "script": script}
     if prop == "C19":
         budget = [1 if rng.random() < (0.25 if tier == "quick" else 0.2) else 0]
-        return {"transport": rng.choice(["tcp", "unix"]), "cls": rng.choice(["TaskPool", "SimpleTaskPool"]),
+        case = {"transport": rng.choice(["tcp", "unix"]), "cls": rng.choice(["TaskPool", "SimpleTaskPool"]),
                 "ops": N.gen_ops(rng, tier, budget)}
+        if rng.random() < 0.08:
+            # the stop comes at once: `task = await serve_forever(); task.cancel()` with no loop iteration in between
+            # (the serving task has not taken a step of its own yet), then possibly a second cycle on the same object
+            ops = [["stop"], ["probe"]]
+            if rng.random() < 0.5:
+                ops += [["restart"], ["connect", "raw"], ["cmd", 0, "num-running"], ["leave", 0, "close"], ["stop"], ["probe"]]
+            case = dict(case, ops=ops, early_stop=True)
+        return case
     raise ValueError(prop)
 
 
